@@ -1,12 +1,16 @@
 #!/usr/bin/env python3
 """C09: reported statistics are consistent with the adjustment they describe.
 
-Engine netmc: the real `gama-local` executable on every network of four
-templates (2-D with fixed datum, free 2-D with constrained points, levelling, 3-D).  For each template the lattice of
-observation subsets is walked DOWN from the full network (transition = remove
-one observation) while the network stays determined, every +-sigma sign
-pattern of the noisy observations present is enumerated, and every input is
-run under the full product sigma-act x conf-pr x sigma-apr x algorithm.
+Engine netmc: the real `gama-local` executable on every network of five
+templates (2-D with fixed datum, the same with 0.01 mm / 0.1 cc precision, free
+2-D with constrained points, levelling, 3-D; all standard deviations inside a
+cluster differ).  For each template the lattice of observation subsets is
+walked DOWN from the full network (transition = remove one observation) while
+the network stays determined, every +-sigma sign pattern of the noisy
+observations present is enumerated, and every input is run under the full
+product sigma-act x conf-pr x sigma-apr (1e-3 .. 1e3) x algorithm.  The full
+network of every template is also run with one and with two passive
+observations at every position of every cluster.
 Oracle: lib/n09_net.py (oracle, sigma_apr_relation) + edge relations below.
 """
 import os, sys, json, math, time
@@ -15,12 +19,13 @@ import concurrent.futures as cf
 import vlib, gnet
 import n09_net as N
 
-TEMPLATES = ["T2", "T2F", "T1", "T3"]
+TEMPLATES = ["T2", "T2F", "T1", "T3", "T2H"]
+HALF_ALWAYS = {"T2H"}        # high-precision copy of T2: mirror-half of the sign patterns in both tiers (budget)
 
 # quick: a sub-product that is complete within itself: only the sign patterns whose first noisy sign is '+'
-# (the other half is its mirror image s -> -s), 2 of 6 conf-pr values, 2 of 4 sigma-apr values
+# (the other half is its mirror image s -> -s), 2 of 6 conf-pr values, 3 of 6 sigma-apr values (both ends of the decades), T2H: full network only
 # algorithms envelope + gso (the two branches of LocalNetwork::vyrovnani_: AdjBaseSparse / AdjBaseFull)
-QUICK = {"sigma-act": ["aposteriori", "apriori"], "conf-pr": [0.9, 0.999], "sigma-apr": [1.0, 25.0],
+QUICK = {"sigma-act": ["aposteriori", "apriori"], "conf-pr": [0.9, 0.999], "sigma-apr": [1e-3, 10.0, 1e3],
          "alg": ["envelope", "gso"], "half": True}
 FULL = {"sigma-act": N.SIGMA_ACT, "conf-pr": N.CONF_PR, "sigma-apr": N.SIGMA_APR, "alg": N.ALGS, "half": False}
 
@@ -58,7 +63,7 @@ def run_one(net, alg, name):
 def worker(item):
     """item: (tname, subset, signs, act, conf, algs, aprs, blunder) -> dict"""
     global _EXE, _TMP
-    (tname, subset, signs, act, conf, algs, aprs, exe, tmp, blunder, edge_set) = item
+    (tname, subset, signs, act, conf, algs, aprs, exe, tmp, blunder, edge_set, passive) = item
     _EXE = exe; _TMP = tmp
     T = tmpl(tname)
     out = {"viol": [], "runs": 0, "outcomes": {}, "edge": {}, "sample": None, "states": len(aprs)}
@@ -72,9 +77,9 @@ def worker(item):
         group = []
         for m0a in aprs:
             par = params(act, conf, m0a)
-            net = N.build_net(T, subset, signs, par)
+            net = N.build_net(T, subset, signs, par, passive=passive)
             case = {"template": tname, "subset": list(subset), "signs": {str(k): v for k, v in signs.items()},
-                    "params": par, "alg": alg, "blunder": blunder}
+                    "params": par, "alg": alg, "blunder": blunder, "passive": [list(x) for x in passive]}
             if blunder:
                 apply_blunder(T, net, blunder)
             g, r, R = run_one(net, alg, uid)
@@ -92,7 +97,7 @@ def worker(item):
             except Exception as e:                       # an output the oracle cannot even read is a violation, not a crash
                 import traceback
                 V, sm = [("oracle", "exception", "%s: %s" % (type(e).__name__, traceback.format_exc()[-400:]))], {}
-            dc = dofclass(sm.get("dof"))
+            dc = dofclass(sm.get("dof")) + ("+passive" if passive else "")
             for (clause, cls, detail) in V:
                 out["viol"].append(("C09|%s|%s|%s|%s|%s" % (clause, cls, base, dc, alg), detail, case, g))
             if sm.get("defect-mismatch"):
@@ -100,11 +105,12 @@ def worker(item):
                 if group is not None: group.append((m0a, R, sm, case, g))
                 continue
             oc("%s|%s|%s|test=%s" % (tname, R.sd.get("used"), dc, sm.get("m0test")))
+            if passive: oc("passive|%s|%s" % (tname, ",".join("%s@%d" % x for x in passive)))
             if sm.get("ellipse-circular"): oc("ellipse-circular-bearing-skipped")
             if sm.get("ellipse-zero"): oc("ellipse-zero(m0=0)-bearing-from-cofactors")
             if sm.get("text-res-table") is False and sm.get("dof", 0) <= 1: oc("text-no-residual-table(dof<=1)")
             group.append((m0a, R, sm, case, g))
-            if (act, conf, m0a) == tuple(edge_set) and "pvv1" in sm:
+            if (act, conf, m0a) == tuple(edge_set) and "pvv1" in sm and not passive:
                 out["edge"][alg] = edge_summary(R, sm, r.text)
             if out["sample"] is None and alg == algs[0] and m0a == aprs[0]:
                 out["sample"] = "%s subset=%s signs=%s %s conf=%g m0a=%g %s: dof=%s [pvv]=%s m0'=%s kp=%s ratio=%s (%s..%s) %s" % (
@@ -119,7 +125,7 @@ def worker(item):
         if group and len(group) > 1:
             Vr = N.sigma_apr_relation([(a, R, sm) for (a, R, sm, _, _) in group])
             for (clause, cls, detail) in Vr:
-                dc = dofclass(group[0][2].get("dof")) if not blunder else "blunder-%s-x%g" % (blunder[0], blunder[1])
+                dc = (dofclass(group[0][2].get("dof")) + ("+passive" if passive else "")) if not blunder else "blunder-%s-x%g" % (blunder[0], blunder[1])
                 case = dict(group[0][3]); case["sigma-apr-group"] = [a for (a, _, _, _, _) in group]
                 out["viol"].append(("C09|%s|%s|%s|%s|%s|%s" % (clause, cls, tname, act, dc, alg), detail, case, group[0][4]))
             oc("sigma-apr-group|%s|%s" % (tname, act))
@@ -241,7 +247,7 @@ def replay(ck, exe):
     bad = 0; group = []
     for m0a in aprs:
         par = dict(case["params"]); par["sigma-apr"] = m0a
-        net = N.build_net(T, subset, signs, par)
+        net = N.build_net(T, subset, signs, par, passive=tuple(tuple(x) for x in case.get("passive") or ()))
         if case.get("blunder"): apply_blunder(T, net, tuple(case["blunder"]))
         g, r, R = run_one(net, case["alg"], "replay")
         stored = (p.get("files") or {}).get("input.gkf")
@@ -306,7 +312,7 @@ def main():
     for name in BLUNDER_OBS:
         for fact in BLUNDER_FACT:
             for act in S["sigma-act"]:
-                items.append(("T2", top, {i: 1 for i in T2.noisy}, act, 0.95, S["alg"], list(N.SIGMA_APR), exe, ck.tmp, (name, fact), EDGE_SET))
+                items.append(("T2", top, {i: 1 for i in T2.noisy}, act, 0.95, S["alg"], list(N.SIGMA_APR), exe, ck.tmp, (name, fact), EDGE_SET, ()))
                 ck.count("blunder_networks")
     per_t = []
     for tname in TEMPLATES:
@@ -318,13 +324,23 @@ def main():
         ck.count("lattice_nodes_passed_through", sum(1 for v in status.values() if v == "pass"))
         ck.count("lattice_subsets_undetermined", sum(1 for v in status.values() if v is None))
         ck.count("lattice_edges", len(edges))
+        topn = tuple(range(len(T.cand)))
+        # passive-observation variants of the full network: every position of every cluster, one and two
+        # passive observations; sign patterns: alternating (+ all '+' in thorough); conf-pr 0.95 only
+        pats = [{i: (1 if k % 2 else -1) for k, i in enumerate(T.noisy)}] + ([] if S["half"] else [{i: 1 for i in T.noisy}])
+        for pv in N.variants(T):
+            for signs in pats:
+                ck.count("networks"); ck.count("passive_variant_networks")
+                for act in S["sigma-act"]:
+                    per_t[-1].append((tname, topn, signs, act, 0.95, S["alg"], list(S["sigma-apr"]), exe, ck.tmp, None, EDGE_SET, pv))
         for s in nodes:
+            if tname in HALF_ALWAYS and S["half"] and s != topn: continue
             for signs in N.patterns(T, s):
-                if S["half"] and signs and signs[min(signs)] < 0: continue
+                if (S["half"] or tname in HALF_ALWAYS) and signs and signs[min(signs)] < 0: continue
                 ck.count("networks")
                 for act in S["sigma-act"]:
                     for conf in S["conf-pr"]:
-                        per_t[-1].append((tname, s, signs, act, conf, S["alg"], list(S["sigma-apr"]), exe, ck.tmp, None, EDGE_SET))
+                        per_t[-1].append((tname, s, signs, act, conf, S["alg"], list(S["sigma-apr"]), exe, ck.tmp, None, EDGE_SET, ()))
     # all templates progress at the same relative speed (a run cut by the deadline has seen every family)
     merged = []
     for L in per_t:
@@ -359,12 +375,13 @@ def main():
     if S["half"]:
         prod += " (quick sub-product: of the sign patterns only those whose first noisy sign is '+', the other half being the mirror image s -> -s; envelope and gso are the two branches of LocalNetwork::vyrovnani_)"
     ck.finish(
-        "four templates (T2: 3 fixed + 2 new points on {0,100,200}^2, 3 directions + 3 distances + 1 angle; T2F: the same 5 points as a free network, A B C constrained, 3 more distances, defect 3; "
+        "five templates (T2H: T2 with 0.004-0.016 mm / 0.07-0.15 cc standard deviations, mirror-half of the sign patterns; T2: 3 fixed + 2 new points on {0,100,200}^2, 3 directions + 3 distances + 1 angle; T2F: the same 5 points as a free network, A B C constrained, 3 more distances, defect 3; "
         "T1: levelling 2 fixed + 3 new heights, 6 height differences; "
         "T3: 3-D 3 fixed + 2 new points, slope distances, zenith angles, a height difference and a vector with full 3x3 cov-mat, no instrument heights); for each template the lattice of "
         "observation subsets reachable from the full network by removing one observation at a time while the reference model keeps it determined (all such subsets, dof from the top value down to 0), "
         "x every +-sigma sign pattern on the noisy observations present (2^6 on the full T2 network) x " + prod + "; plus a blunder family (T2 full network, one gross error of 0.5/2/8 x the tol-abs "
-        "test quantity on a direction, an angle, a distance) for the participation clause.  Oracle on every execution: dof = equations - unknowns + defect; [pvv] = v'Pv from obs/adj and the input "
+        "test quantity on a direction, an angle, a distance) for the participation clause; plus, for every template, the full network with one and with two passive observations (target without "
+        "coordinates that cannot be computed, or listed without fix/adj for height differences and vectors) inserted at every position of every cluster (all stdevs inside a cluster differ), conf-pr 0.95.  Oracle on every execution: dof = equations - unknowns + defect; [pvv] = v'Pv from obs/adj and the input "
         "weights / full cov-mat; aposteriori = sqrt([pvv]/dof); confidence-scale = own Normal/Student quantile (bisection) by <used>; ratio, lower, upper, verdict; cov-mat = m0^2 (A'PA)^-1 (free network: S-transformed g-inverse for the constrained coordinates) with an "
         "independent numeric Jacobian; ellipses = eigen-decomposition of the 2x2 block; per uncorrelated observation stdev, qrr, f, std-residual, err-obs, err-adj; English text output "
         "(general parameters, std.dev / conf.i. of unknowns and observations, residual table, ellipses) against the XML; relation between the runs that differ only in sigma-apr; relations along "
